@@ -150,17 +150,25 @@ def _symnum(item, out):
     specs += [U.to_kind(g, SMG) for g in U.MG_reps(4, ("C", "H", "O")) if 0 < len(g.atoms)][::4]
     for m in specs:
         exp = sum(1 for _ in RI.isomorphisms(m, m, roles=False, stereo=True, changes=False))
-        try:
-            got = topological_symmetry_number(U.build(m))
-        except Exception as e:
-            got = "EXC:" + type(e).__name__
-        out["evals"] += 1
-        out["distinct"] += 1
-        oc["symnum-" + ("ok" if got == exp else "bad")] = oc.get("symnum-" + ("ok" if got == exp else "bad"), 0) + 1
-        if got != exp:
-            cl = "raised" if isinstance(got, str) else "wrong"
-            out["viol"].append({"sig": f"C05/SMG/topological_symmetry_number/{cl}",
-                                "input": U.key(m),
-                                "what": f"topological_symmetry_number({U.describe(m)}) = {got}, number of stereo-preserving "
-                                        f"automorphisms = {exp}", "item": item, "detail": None})
+        ids = list(m.atoms)
+        builds = [("as-given", lambda: U.build(m)),
+                  ("reversed-insertion", lambda: U.build(m, atom_order=list(reversed(ids)))),
+                  ("rotated-insertion", lambda: U.build(m, atom_order=ids[len(ids) // 2:] + ids[:len(ids) // 2])),
+                  ("relabelled", lambda: U.build(m.copy().relabel(dict(zip(ids, [a * 7 % 23 + 40 for a in reversed(range(len(ids)))]))))),
+                  ("relabel_atoms", lambda: U.build(m).relabel_atoms(dict(zip(ids, reversed(ids))), copy=True)),
+                  ("subgraph-reversed", lambda: U.build(m).subgraph(list(reversed(ids))))]
+        for how, mkg in builds:
+            try:
+                got = topological_symmetry_number(mkg())
+            except Exception as e:
+                got = "EXC:" + type(e).__name__
+            out["evals"] += 1
+            out["distinct"] += 1
+            oc["symnum-" + ("ok" if got == exp else "bad")] = oc.get("symnum-" + ("ok" if got == exp else "bad"), 0) + 1
+            if got != exp:
+                cl = "raised" if isinstance(got, str) else "wrong"
+                out["viol"].append({"sig": f"C05/SMG/topological_symmetry_number/{how}/{cl}",
+                                    "input": U.key(m),
+                                    "what": f"topological_symmetry_number({U.describe(m)}, built {how}) = {got}, number of stereo-preserving "
+                                            f"automorphisms = {exp}", "item": item, "detail": None})
     return out
